@@ -382,6 +382,7 @@ func Le(a, b *Term) *Atom   { return &Atom{Pred: "le", Args: []*Term{a, b}} }
 func NotA(a *Atom) *Atom    { return a.Negate() }
 func Done(t *Term) *Atom    { return &Atom{Pred: "done", Args: []*Term{t}} }
 func ForAll(c *Term, inner *Atom) *Atom {
+	inner = inner.Subst(map[string]*Term{"<none>": tNil}) // re-canonicalise argument order
 	return &Atom{Pred: "forall", Args: []*Term{c, atomTerm(inner)}}
 }
 func Unique(c, key *Term) *Atom { return &Atom{Pred: "unique", Args: []*Term{c, key}} }
